@@ -59,25 +59,25 @@ type Ctx struct {
 	trace  []decision
 	alts   [][]decision
 
-	pc     []string
+	pc []string
 	// FirstSeen: Int-coded atoms whose first character the code under test has read
 	FirstSeen map[string]bool
-	pcHash [20]byte
+	pcHash    [20]byte
 
-	nvars   int
-	Atoms   map[string]*AtomInfo
-	IntVars []string
+	nvars    int
+	Atoms    map[string]*AtomInfo
+	IntVars  []string
 	CodeVars []string
-	StrVars []string
+	StrVars  []string
 
 	// post-lexing symbolisation
-	Placeholders map[string]value // exact token literal -> replacement string value
+	Placeholders     map[string]value    // exact token literal -> replacement string value
 	TypePlaceholders map[string][2]value // exact token literal -> (type, literal) replacement
-	PlaceholderRe *regexp.Regexp  // pattern of placeholders inside string literals
-	LineMap      func(line int) value
-	SymbolizeTokens bool
+	PlaceholderRe    *regexp.Regexp      // pattern of placeholders inside string literals
+	LineMap          func(line int) value
+	SymbolizeTokens  bool
 
-	PermuteMaps bool
+	PermuteMaps    bool
 	MapSitePermute map[string]bool
 	MapSitesSeen   map[string]int // range-over-map sites reached on this path -> largest map size
 
@@ -229,6 +229,12 @@ func (c *Ctx) runGuarded(body func(c *Ctx)) (res PathResult) {
 			n := runtime.Stack(buf, false)
 			panic(EngineError{"host runtime error: " + msg + "\n" + string(buf[:n])})
 		default:
+			// an operation of the interpreter that has no symbolic counterpart
+			// met a symbolic operand: the path is not decided (not an engine defect)
+			if msg, ok := r.(string); ok && strings.HasPrefix(msg, "cannot convert interp.Sym") {
+				res = PathResult{Outcome: PathInconclusive, Msg: "concrete-only operation on a symbolic value: " + msg}
+				return
+			}
 			buf := make([]byte, 1<<14)
 			n := runtime.Stack(buf, false)
 			panic(EngineError{fmt.Sprintf("unexpected panic: %v\n%s", r, buf[:n])})
